@@ -1,4 +1,6 @@
 import MmtkModel.Lemmas.Sched
+import MmtkModel.Lemmas.SchedLive
+import MmtkModel.Props.C15
 import MmtkModel.Generated.Stages
 /-!
 # C14 — Every requested GC completes; workers never deadlock or lose a wake-up
@@ -23,13 +25,45 @@ Proved (safety part of C14):
   state "the only worker waits, a runnable packet exists, no wake-up in flight" is reachable
   (kernel-evaluated witness run).  This is the race the comment in `park_and_wait` describes.
 * `designated_not_forgotten` — designated work exists only during a GC and never while all workers wait.
-* `gc_never_sleeps_partial` — the proved part of "each GC request eventually leads to a completed
+* `gc_never_sleeps_partial` — the safety half of "each GC request eventually leads to a completed
   collection": while a Gc goal is current, never do all workers wait (no deadlock inside a GC), and
-  the transition that makes the last worker wait has no request pending.
+  the transition that makes the last worker wait has no request pending.  (The liveness half is
+  `gc_completes_under_fairness` below.)
 
-Not proved here: the fair-termination half of "eventually" (a decreasing measure under `FairRun`).
-Full statement: for every run in which every enabled worker eventually steps and spurious wake-ups
-are finite, and packets spawn finitely many packets, a requested GC reaches `goalCompleted gc`.
+Proved (liveness part of C14; definitions and the proof are in `Lemmas/SchedLive.lean`):
+* `FairRun c tr act` — an infinite run `tr 0 →(act 0) tr 1 → …` (`act k = none`: stutter) from a reachable
+  state with *weak fairness* of each worker's loop actions: `finish w` (`execEnd`: a running packet
+  terminates), `take w` (some poll / pop / steal of `w`), `look w k` (`observeEmpty w k`), `miss w`, `park w`,
+  `wake w`, `surrender w`: none of them is continuously enabled from some point on without being taken.
+  What a running packet does, mutator / binding actions and spurious wake-ups are unconstrained by `FairRun`.
+* explicit hypotheses: `FiniteSpawn` (finitely many packets are created: `added` is bounded along the run),
+  `FiniteEnv` (from some point on only GC workers act: finitely many mutator actions **and finitely many
+  spurious wake-ups**), `NoAssert` (a worker about to park can park: no debug assertion of
+  `on_last_parked` fires; the model disables `park` exactly where the code panics), `mutAddOpen = false`,
+  `GcPending` (a Gc request is pending or a Gc goal is current, no exit goal is current, no worker thread has
+  surrendered).
+* `all_workers_park_eventually` (= `last_park_eventually`) — the progress lemma: the run reaches a `park` of the
+  last parker (the worker that runs `on_last_parked`).  Proof: otherwise the counters `started`, `ended` are
+  eventually constant, no worker runs a packet (`finish` fairness), only "quiet" steps remain, every worker ends
+  up waiting (`take`/`look`/`miss`/`park`/`wake` fairness + invariant C: no stranded packet), which
+  contradicts invariant B (the last parker never sleeps on a request) — `Stuck.false`.
+* `request_leads_to_goal` — a pending Gc request becomes the current goal.
+* `gc_in_progress_completes` (= `gc_done_changes`) — a Gc goal in progress completes: otherwise `on_last_parked`
+  runs infinitely often; each time it empties a sentinel slot, opens a closed bucket (both can happen only
+  finitely often: flags are monotone during a GC) or finds designated work — and then the designated worker,
+  once woken, can take its packet forever and by `take` fairness does, contradicting "no packet starts".
+* **`gc_completes_under_fairness`** — the full statement: under the hypotheses above the run reaches the
+  transition that completes *that* GC: `gcDone` is unchanged up to it and one larger after it; it is the `park`
+  of the last parker while the Gc goal is current and every other worker is parked; afterwards all
+  stop-the-world buckets are closed and empty, no worker runs a packet, all local deques are empty.
+* `live_hypotheses_satisfiable` — a concrete run (1 worker, request → ScheduleCollection → completion →
+  sleep, then stuttering) satisfies every hypothesis (kernel-evaluated), and the theorem applied to it.
+Why `FiniteEnv` (finitely many spurious wake-ups) and not "spurious wake-ups allowed without bound": with two
+workers A, B the schedule  A.spurious, A.wake, B.park, A.observe…, A.pollMiss, B.spurious, B.wake, A.park, …
+is weakly fair for every class above and never lets `parked_workers` reach `n`: the GC never completes.  The
+hypothesis cannot be dropped; it is the model's form of "spurious wake-ups are rare".  (Not proved as a Lean
+counterexample — it needs an infinite fair run with unboundedly many wake-ups; only the argument is given.)
+Not assumed: any bound on what a packet does while it runs, on the number of workers, on the interleaving.
 -/
 namespace Mmtk.Sched
 
@@ -102,6 +136,137 @@ theorem gc_never_sleeps_partial {c : Cfg} (hn : 0 < c.n) {s : State} (h : Reacha
     (hall : ∀ x, x < c.n → s.pc x = .waiting) : s.current = none ∧ anyRequested s = false :=
   let ⟨h1, h2⟩ := (reachable_invAB hn h).2 hall
   ⟨h2, h1⟩
+
+/-! ## liveness under fairness -/
+
+/-- **C14 (progress)** every worker eventually parks: in a fair run with finitely many packets and
+finitely many environment actions in which no assertion fires, from a state where some goal is requested
+(or a Gc goal is current) the run reaches a `park` step of the *last* parker, the worker that runs
+`on_last_parked`; the request / goal is still there (`Pending`) at that step. -/
+theorem all_workers_park_eventually {c : Cfg} {tr : Nat → State} {act : Nat → Option Act}
+    (hn : 0 < c.n) (hmut : c.mutAddOpen = false) (hu : c.unconIdx < c.L)
+    (R : FairRun c tr act) (hN : FiniteSpawn tr) (hE : FiniteEnv act) (hA : NoAssert c tr) (hP : Pending c (tr 0)) :
+    ∃ j, IsLastPark c (tr j) (act j) ∧ ∀ i, i ≤ j → Pending c (tr i) :=
+  last_park_eventually hn hmut hu R hN hE hA hP
+
+/-- **C14 (request leads to goal)** a pending Gc request becomes the current goal, before any GC completes. -/
+theorem request_leads_to_goal {c : Cfg} {tr : Nat → State} {act : Nat → Option Act}
+    (hn : 0 < c.n) (hmut : c.mutAddOpen = false) (hu : c.unconIdx < c.L)
+    (R : FairRun c tr act) (hN : FiniteSpawn tr) (hE : FiniteEnv act) (hA : NoAssert c tr) (hP : GcPending c (tr 0)) :
+    ∃ j, (tr j).current = some .gc ∧ ∀ i, i ≤ j → (tr i).gcDone = (tr 0).gcDone := by
+  obtain ⟨j0, h1, h2, _⟩ := gc_request_completes hn hmut hu R hN hE hA hP
+  exact ⟨j0, h1, h2⟩
+
+/-- **C14 (a GC in progress completes)** `gcDone` changes. -/
+theorem gc_in_progress_completes {c : Cfg} {tr : Nat → State} {act : Nat → Option Act}
+    (hn : 0 < c.n) (hmut : c.mutAddOpen = false) (hu : c.unconIdx < c.L)
+    (R : FairRun c tr act) (hN : FiniteSpawn tr) (hE : FiniteEnv act) (hA : NoAssert c tr) (hP : Pending c (tr 0))
+    (hc : (tr 0).current = some .gc) : ∃ j, (tr j).gcDone ≠ (tr 0).gcDone :=
+  gc_done_changes hn hmut hu R hN hE hA hP hc
+
+/-- **C14 (liveness) every requested GC completes.**  Let `tr` be a fair run (`FairRun`: weak fairness of
+every worker's loop actions, running packets terminate) from a reachable state with a pending Gc request or
+a Gc goal in progress (`GcPending`), in which finitely many packets are created (`FiniteSpawn`), finitely many
+mutator actions / spurious wake-ups occur (`FiniteEnv`), no debug assertion fires (`NoAssert`), and mutators do
+not push into open buckets (`mutAddOpen = false`).  Then the run reaches the transition `j → j+1` that
+completes that GC: up to `j` the counter `gcDone` is unchanged and at `j+1` it is one larger; the transition is
+the `park` of the last parker `w` while the Gc goal is current and every other worker is parked; afterwards
+every stop-the-world bucket is closed and empty, no worker runs a packet and every local deque is empty. -/
+theorem gc_completes_under_fairness {c : Cfg} {tr : Nat → State} {act : Nat → Option Act}
+    (hwf : c.WF) (hmut : c.mutAddOpen = false) (hu : c.unconIdx < c.L)
+    (R : FairRun c tr act) (hN : FiniteSpawn tr) (hE : FiniteEnv act) (hA : NoAssert c tr) (hP : GcPending c (tr 0)) :
+    ∃ j w tag, (∀ i, i ≤ j → (tr i).gcDone = (tr 0).gcDone) ∧ act j = some (.park w tag) ∧
+      (tr (j+1)).gcDone = (tr 0).gcDone + 1 ∧ (tr j).current = some .gc ∧ w < c.n ∧ (tr j).pc w = .parking ∧
+      (∀ x, x < c.n → x ≠ w → ((tr j).pc x).isParked = true) ∧
+      (∀ b, b < c.L → (c.info b).isStw = true → ((tr (j+1)).bkt b).isOpen = false ∧ ((tr (j+1)).bkt b).q = []) ∧
+      (∀ x, x < c.n → ((tr (j+1)).pc x).isExec = false ∧ (tr (j+1)).buf x = []) := by
+  obtain ⟨_, _, _, j1, _, hj1⟩ := gc_request_completes hwf.npos hmut hu R hN hE hA hP
+  obtain ⟨j, hne, hsame⟩ := first_change (fun i => (tr i).gcDone) ⟨j1, hj1⟩
+  cases ha : act j with
+  | none => rw [R.stutter_at ha] at hne; exact absurd rfl hne
+  | some a =>
+    have hs := R.step_at ha
+    obtain ⟨⟨w, tag, rfl⟩, hplus, hcur, hstw⟩ := all_closed_at_end hwf hs hne
+    obtain ⟨hq1, hq2⟩ := quiescent_at_end hwf hmut (R.reach j) hs hne
+    obtain ⟨hw, hpc, _, hcase⟩ := step_park_cases hs
+    have hA' := reachable_invA (R.reach j)
+    refine ⟨j, w, tag, hsame, ha, by rw [hplus, hsame j (Nat.le_refl _)], hcur, hw, hpc, ?_, hstw, ?_⟩
+    · rcases hcase with ⟨_, e⟩ | ⟨hlast, _⟩
+      · rw [e] at hne; exact absurd rfl hne
+      · intro x hx hxw
+        exact countW_all_but c.n (fun x => ((tr j).pc x).isParked) w hw (by simp [hpc, PC.isParked])
+          (by have := hA'.parked_eq; unfold parkedCount at this; omega) x hx hxw
+    · intro x hx
+      exact ⟨by rw [step_park_isExec hs]; exact hq1 x hx, hq2 x hx⟩
+
+/-! ## the hypotheses of the liveness theorems are satisfiable -/
+
+open Mmtk.Generated.Stages in
+/-- the state after `GCTrigger::request` + `make_request(Gc)`: one worker, a Gc request is pending -/
+def liveStart : State := (exec (cfg 1) (init (cfg 1)) [.requestFlag, .makeRequest .gc none]).getD (init (cfg 1))
+
+open Mmtk.Generated.Stages in
+/-- the worker finds nothing, parks (last parker: starts the Gc goal), runs `ScheduleCollection`, finds
+nothing, parks again (last parker: completes the GC and goes to sleep) -/
+def liveRun : List Act :=
+  (allConts (cfg 1)).map (Act.observeEmpty 0) ++ [.pollMiss 0, .park 0 7, .pollBucket 0 0 ⟨0, 0, 7⟩, .execEnd 0] ++
+  (allConts (cfg 1)).map (Act.observeEmpty 0) ++ [.pollMiss 0, .park 0 0]
+
+open Mmtk.Generated.Stages in
+def liveEnd : State := (exec (cfg 1) liveStart liveRun).getD liveStart
+
+open Mmtk.Generated.Stages in
+theorem liveRun_exec : exec (cfg 1) liveStart liveRun = some liveEnd :=
+  exec_getD (by decide +kernel)
+
+open Mmtk.Generated.Stages in
+/-- **a concrete instance of all hypotheses** of `gc_completes_under_fairness` (and of
+`all_workers_park_eventually`): the run `liveRun` from `liveStart`, continued by stuttering, is a fair run
+with a pending Gc request at its start, 1 packet, no environment action, no assertion failure. -/
+theorem live_hypotheses_satisfiable :
+    (cfg 1).WF ∧ (cfg 1).mutAddOpen = false ∧ (cfg 1).unconIdx < (cfg 1).L ∧
+    FairRun (cfg 1) (runStates (cfg 1) liveStart liveRun) (fun k => liveRun[k]?) ∧
+    FiniteSpawn (runStates (cfg 1) liveStart liveRun) ∧ FiniteEnv (fun k => liveRun[k]?) ∧
+    NoAssert (cfg 1) (runStates (cfg 1) liveStart liveRun) ∧
+    GcPending (cfg 1) (runStates (cfg 1) liveStart liveRun 0) := by
+  have hreach : Reachable (cfg 1) liveStart := ⟨[.requestFlag, .makeRequest .gc none], exec_getD (by decide +kernel)⟩
+  have hend : ∀ w, w < (cfg 1).n → liveEnd.pc w = .waiting := by
+    intro w hw
+    have : w = 0 := by have : (cfg 1).n = 1 := rfl; omega
+    subst this; decide +kernel
+  refine ⟨generated_wf 1 (by decide) false, rfl, by decide, fairRun_of_finite hreach liveRun_exec hend, ?_, ?_, ?_, ?_⟩
+  · exact ⟨1, runStates_forall liveRun_exec (fun s => s.added ≤ 1) (by decide +kernel) (by decide +kernel)⟩
+  · refine ⟨0, fun j a _ ha => ?_⟩
+    have hall : liveRun.all (fun a => !a.isEnv) = true := by decide +kernel
+    have := (List.all_eq_true.1 hall) a (List.mem_of_getElem? ha)
+    simpa using this
+  · intro j w hw
+    have : w = 0 := by have : (cfg 1).n = 1 := rfl; omega
+    subst this
+    exact runStates_forall liveRun_exec
+      (fun s => s.pc 0 = .parking → ∃ tag, (step (cfg 1) s (.park 0 tag)).isSome = true)
+      (fun k hk hp => ⟨0, by
+        have : ∀ k, k < liveRun.length → (runStates (cfg 1) liveStart liveRun k).pc 0 = .parking →
+            (step (cfg 1) (runStates (cfg 1) liveStart liveRun k) (.park 0 0)).isSome = true := by decide +kernel
+        exact this k hk hp⟩)
+      (fun hp => by have : liveEnd.pc 0 = .waiting := by decide +kernel
+                    rw [this] at hp; cases hp) j
+  · rw [runStates_zero]
+    refine ⟨Or.inl (by decide +kernel), ?_, ?_⟩
+    · intro g hg
+      have : liveStart.current = none := by decide +kernel
+      rw [this] at hg; cases hg
+    · intro w hw
+      have : w = 0 := by have : (cfg 1).n = 1 := rfl; omega
+      subst this; decide +kernel
+
+open Mmtk.Generated.Stages in
+/-- the liveness theorem applied to the concrete run: it does reach the completing `park` -/
+example : ∃ j w tag, liveRun[j]? = some (.park w tag) ∧
+    (runStates (cfg 1) liveStart liveRun (j+1)).gcDone = (runStates (cfg 1) liveStart liveRun 0).gcDone + 1 := by
+  obtain ⟨h1, h2, h3, h4, h5, h6, h7, h8⟩ := live_hypotheses_satisfiable
+  obtain ⟨j, w, tag, _, ha, hg, _⟩ := gc_completes_under_fairness h1 h2 h3 h4 h5 h6 h7 h8
+  exact ⟨j, w, tag, ha, hg⟩
 
 /-! ## the hypotheses are satisfiable; the mutator-push hypothesis is necessary -/
 
